@@ -53,6 +53,8 @@ pub const ALL_SINKS: &[SinkKind] = &[
     SinkKind::CollectChannel,
     SinkKind::ForEach,
     SinkKind::CollectVecAll,
+    SinkKind::CollectAll,
+    SinkKind::CollectChannelParallel,
 ];
 
 pub const TIMING_FAULTS: &[&str] = &[
